@@ -106,6 +106,7 @@ CATALOG = {
     "params_initial": {
         # the model a params value belongs to is in PARAMS_MODEL
         "q_para_a": (_p("hertz_para", E=5000.), False),
+        "q_para_near": (_p("hertz_para", E=5000.000001), False),
         "q_para_b": (_p("hertz_para", E=5000., R=8e-6), False),
         "q_para_cp": (_p("hertz_para", E=2000., contact_point=1e-7), False),
         "q_para_fixE": (_p("hertz_para", E={"value": 2500., "vary": False}),
@@ -126,6 +127,9 @@ CATALOG = {
         "r_in": (_v([-4e-7, 2e-7]), False),
         "r_in_t": (_v((-4e-7, 2e-7)), False),        # tuple variant
         "r_in2": (_v([-6e-7, 2e-7]), False),         # other lower bound
+        # near-equal neighbours (a tolerant comparison must not merge them)
+        "r_in_near": (_v([-4.05e-7, 2e-7]), False),  # 5 nm off
+        "r_in_near2": (_v([-4e-7, 2.04e-7]), False),
         "r_in3": (_v([-4e-7, 4e-7]), False),         # other upper bound
         "r_inv": (_v([2e-7, -4e-7]), False),         # inverted (legal)
         "r_rel": (_v([-5e-7, 3e-7]), False),
@@ -150,6 +154,7 @@ CATALOG = {
     "weight_cp": {
         "w_def": (_v(1e-6), False),
         "w_half": (_v(5e-7), False),
+        "w_near": (_v(1.0000001e-6), False),
         "w_off": (_v(0), False),
         "w_offF": (_v(False), False),
     },
@@ -157,6 +162,7 @@ CATALOG = {
         "k_1": (_v(1.0), False),
         "k_1i": (_v(1), False),
         "k_half": (_v(0.5), False),
+        "k_near": (_v(0.50000001), False),
         "k_quarter": (_v(0.25), False),
         "k_061": (_v(0.6135), False),
     },
@@ -187,7 +193,7 @@ CATALOG = {
     },
 }
 
-PARAMS_MODEL = {"q_para_max": "hertz_para", "q_para_expr": "hertz_para",
+PARAMS_MODEL = {"q_para_near": "hertz_para", "q_para_max": "hertz_para", "q_para_expr": "hertz_para",
                 "q_para_a": "hertz_para", "q_para_b": "hertz_para",
                 "q_para_cp": "hertz_para", "q_para_fixE": "hertz_para",
                 "q_para_min": "hertz_para", "q_cone_a": "hertz_cone",
@@ -388,7 +394,7 @@ SLICES = {
                         "params_initial": ["q_para_a", "q_cone_a"]},
                   raters=["R_none"], fit2=True, fitpre1=True),
     "range": dict(pipes=["P1"], badpipes=[],
-                  keys={"range_x": ["r_all", "r_in", "r_in_t", "r_in2",
+                  keys={"range_x": ["r_all", "r_in", "r_in_t", "r_in_near",
                                     "r_nan"],
                         "optimal_fit_edelta": ["e_off", "e_on"],
                         "optimal_fit_num_samples": ["n_8", "n_10"]},
@@ -405,16 +411,16 @@ SLICES = {
 # every PAIR of keys (DESIGN.md 4.4)
 PAIR_VALUES = {
     "model_key": ["m_para", "m_pyr", "m_bad"],
-    "range_x": ["r_in", "r_in_t", "r_len3"],
+    "range_x": ["r_in", "r_in_near2", "r_len3"],
     "range_type": ["t_abs", "t_rel", "t_bad"],
     "segment": ["s_0", "s_app", "s_bad"],
-    "weight_cp": ["w_def", "w_off", "w_offF"],
-    "gcf_k": ["k_1", "k_1i", "k_061"],
+    "weight_cp": ["w_def", "w_near", "w_off"],
+    "gcf_k": ["k_half", "k_near", "k_1i"],
     "method": ["me_lsq", "me_nm", "me_bad"],
     "method_kws": ["mk_0", "mk_a"],
     "optimal_fit_edelta": ["e_off", "e_on"],
     "optimal_fit_num_samples": ["n_8", "n_10"],
-    "params_initial": ["q_para_b", "q_pyr_a"],
+    "params_initial": ["q_para_a", "q_para_near", "q_pyr_a"],
 }
 
 
